@@ -159,6 +159,10 @@ pub fn dispatch(client: &StatsdClient, call: &Call) -> Result<Option<Result<Stri
 }
 
 pub fn build_client(cfg: &ClientCfg, sink: ScriptedSink, handler_log: Arc<Mutex<Vec<ErrInfo>>>) -> StatsdClient {
+    if cfg.tags.is_empty() && cfg.container.is_none() && !cfg.handler && cfg.prefix.len() % 2 == 0 {
+        // the other public constructor (must behave like an option-less builder)
+        return StatsdClient::from_sink(&cfg.prefix, sink);
+    }
     let mut b = StatsdClient::builder(&cfg.prefix, sink);
     for t in &cfg.tags {
         b = match &t.key {
